@@ -467,6 +467,16 @@ fn main() {
                 rep.violations.extend(st.violations);
                 rep.add_part(st.part);
             }
+            {
+                // both directions at once, one side busy (not reading) while the other streams
+                // more than the buffers hold; fixed latency, no loss
+                let mut d = vx_core::DfsConfig::new("fixed-latency-grid-bidirectional-busy-side", 0);
+                d.wall = wall;
+                let thorough = tier == Tier::Thorough;
+                let st = vx_core::explore_dfs(&d, move |ch| fixedlat::bidir_scenario(ch, thorough));
+                rep.violations.extend(st.violations);
+                rep.add_part(st.part);
+            }
             rep.finish();
         }
         "C16" => {
@@ -609,6 +619,22 @@ fn replay(path: &str) {
             all.extend(c16_configs(Tier::Quick));
         }
         _ => {}
+    }
+    if prop == "C06" && scenario.starts_with("c06-bidir") {
+        println!("replaying {prop}: {scenario}");
+        let mut ch = vx_core::Chooser::from_choices(&choices);
+        let e = fixedlat::bidir_scenario(&mut ch, scenario.contains("tier=thorough"));
+        for l in ch.describe() {
+            println!("  choice {l}");
+        }
+        match e.violation {
+            Some(v) => {
+                println!("VIOLATION clause={} : {}", v.clause, v.detail);
+                std::process::exit(1);
+            }
+            None => println!("no violation on this execution"),
+        }
+        return;
     }
     if prop == "C06" && scenario.starts_with("c06-fixedlat") {
         println!("replaying {prop}: {scenario}");
